@@ -38,3 +38,13 @@ CLAIMS["C03"] = {
     "note": "The harness recovers panics only to report them. UDP socket reads (receiver.go) are not driven here (C20 runs the server end to end). Wedge detection uses a generous wall-clock bound (60/120 s) as the only time-based signal.",
     "technique": "property-based testing (rapid) + exhaustive boundary grid + native go fuzzing: crash-freedom with line/request accounting oracle",
 }
+
+CLAIMS["C08"] = {
+    "text": "Random timer multisets (n 0..40 incl. duplicates, negatives, 12 orders of magnitude), sample rates, arrival orders and batchings, integer percentile lists of both signs, "
+            "flush intervals and sub-metric masks are flushed by a real MetricAggregator; every reported statistic (count, per-second, min, max, sum, sum of squares, mean, median, population "
+            "standard deviation, and per percentile count/sum/mean/sum-of-squares/boundary with k = round(|p|n/100), k=1 for n=1, omitted for k=0) is compared with an independently computed "
+            "reference, and a permuted/re-batched arrival must give the same report. Histogram-tagged timers (malformed, duplicate, unsorted, infinite bucket items x limits incl. 0) are compared "
+            "with #{v <= bound} per bucket, at-most-limit finite buckets, +Inf present, nothing for limit 0, and no summary statistics. Exploration.",
+    "note": "Stated floating-point tolerances (1e-9 x scale) for sums; exact equality for order statistics; both neighbours accepted at exact .5 ties of k and of count. Percentile 0 and NaN bucket items are outside the domain.",
+    "technique": "property-based testing (rapid): independent reference statistics + permutation/batching metamorphic relation",
+}
